@@ -207,6 +207,8 @@ def judge(ck, trace, label):
             key = "%s:%s" % (r.get("planner", "?"), clause)
             if r.get("query", "single") != "single":
                 key += ":" + r["query"]   # several starts / goal states / non-sampleable region
+            if r.get("space") == "DUBINS":
+                key += ":dubins"          # non-reversible motions, non-unique shortest curves
             rp = ck.replay_file("run-%s-%d.json" % (label, b["line"]), json.dumps(r, indent=1))
             if ck.violation(key, "planner %s in %s on map obst=%s start=%s goal=%s (thr=%s range=%s budget=%s seed=%s): "
                             "status %s, contract clause '%s' fails" %
